@@ -265,17 +265,46 @@ Definition simple_target_to_expr (t : node) : node :=
 Definition is_pat_target (t : node) : bool :=
   is_kind KArrayPat t || is_kind KObjectPat t || is_kind (KOther "Invalid") t.
 
+(** [hoist_target]: whatever in a member target is more than an identifier is evaluated once into
+    a temporary (the target is mentioned twice by the rewritten assignment). *)
+Definition hoist_target (c : config) (lhs : node) (span : sp) (a : acc) (p : pstate) : node * acc * pstate :=
+  match lhs with
+  | Node (K KMember lo hi) [obj; prop] =>
+      let '(obj', a1, p1) :=
+        if is_ident obj || is_kind KThis obj then (obj, a, p)
+        else
+          let '(id, a1, p1) := get_temporal c obj span IKExpr a p in
+          (match id with Some i => i | None => obj end, a1, p1) in
+      let '(prop', a2, p2) :=
+        match prop with
+        | Node (K KComputed clo chi) [e] =>
+            if is_ident e || is_lit e then (prop, a1, p1)
+            else
+              let '(id, a2, p2) := get_temporal c e span IKExpr a1 p1 in
+              (Node (K KComputed clo chi) [match id with Some i => i | None => e end], a2, p2)
+        | _ => (prop, a1, p1)
+        end in
+      (Node (K KMember lo hi) [obj'; prop'], a2, p2)
+  | _ => (lhs, a, p)
+  end.
+
 Definition assign_transform (c : config) (e : node) (p : pstate) : option node * pstate :=
   match e with
   | Node (K KAssign lo hi) [_; lhs; rhs] =>
       if is_pat_target lhs then (None, p)   (* unreachable from parsed JS: `[a] += x` is a syntax error *)
       else
         let span := (lo, hi) in
+        let '(lhs', hoisted, p0) := hoist_target c lhs span acc0 p in
         (* a sum that is still a sum keeps its grouping: the printer does not parenthesise a right operand *)
         let right := if is_op bin_op "+" rhs then mk_paren (span_of rhs) rhs else rhs in
-        let binary := mk_bin span "+" (simple_target_to_expr lhs) right in
-        match binary_transform c binary p with
-        | (Some e', p1) => (Some (mk_assign span "=" lhs e'), p1)
+        let binary := mk_bin span "+" (simple_target_to_expr lhs') right in
+        match binary_transform c binary p0 with
+        | (Some e', p1) =>
+            let new_assign := mk_assign span "=" lhs' e' in
+            (Some (match a_assigns hoisted with
+                   | [] => new_assign
+                   | hs => mk_paren span (mk_seq span (hs ++ [new_assign]))
+                   end), p1)
         | (None, p1) => (None, p1)
         end
   | _ => (None, p)
